@@ -86,4 +86,4 @@ def case(world):
             bump("nontrivial")
             keys.append(ex.traj_digest()[:16] if kind == "homotopy" else "int:" + r.x.tobytes().hex()[:16])
     sample = small_sample(world, {"outcome": ex.outcome})
-    return {"violations": viol, "stats": stats, "keys": keys, "executions": 1, "sample": sample, "virtual_seconds": ex.clock.t - 1000.0}
+    return {"violations": viol, "stats": stats, "keys": keys, "executions": 1, "sample": sample, "virtual_seconds": ex.clock.t - ex.clock.t0}
